@@ -32,7 +32,7 @@ pub fn bounded(data: &[u8]) -> rb::BCase {
             8 => rb::BOp::IndexMutSet(a),
             9 => rb::BOp::IterMutSet,
             10 => rb::BOp::SlicesMutSet,
-            11 => rb::BOp::Drain(a),
+            11 => if a % 2 == 0 { rb::BOp::Drain(a) } else { rb::BOp::DrainNth(a) },
             _ => rb::BOp::Extend(a),
         });
     }
@@ -130,6 +130,7 @@ pub fn buffered(data: &[u8]) -> c14::Case {
         ops.push(match idx(&mut u, 8) {
             0 | 1 | 2 | 3 => c14::Op::Next,
             4 => c14::Op::IsExhausted,
+            5 => c14::Op::NextFramesNth(idx(&mut u, cap + 2)),
             _ => c14::Op::NextFrames(idx(&mut u, cap + 2)),
         });
     }
